@@ -1,8 +1,9 @@
 import Driver.Proto
+import Driver.C09Html
 /-! driver handlers for property C09 (ops `model.*`, `spec.*`, `trig.*`) -/
 namespace Verif.Driver.C09
 open Verif Verif.Driver
 
-def handlers : List (String × Handler) := []
+def handlers : List (String × Handler) := [] ++ C09Html.handlers
 
 end Verif.Driver.C09
